@@ -303,8 +303,8 @@ extern "C" size_t LLVMFuzzerCustomMutator(uint8_t *data, size_t size, size_t max
 {
   uint32_t r = seed * 2654435761u + 12345u;
   auto next = [&r]() { r = r * 1664525u + 1013904223u; return r >> 8; };
-  const unsigned choice = next() % 4;
-  if (size < 4 || choice >= 2)
+  const unsigned choice = next() % 5;
+  if (size < 4 || choice >= 3)
     return LLVMFuzzerMutate(data, size, max_size);
   const size_t nbits = (size - 1) * 8;
   std::vector<uint8_t> bits(nbits);
@@ -312,7 +312,35 @@ extern "C" size_t LLVMFuzzerCustomMutator(uint8_t *data, size_t size, size_t max
     bits[k] = (data[1 + (k >> 3)] >> (k & 7)) & 1;
   const size_t pos = next() % nbits;
   const size_t n = 1 + next() % 15;
-  if (choice == 0)
+  if (choice == 2)
+    {
+      // damage ONE data cell of an address mark (FM: F57E / F56F / F56A; MFM: the byte after three 4489 syncs), or of
+      // the field behind it: a mark read with one wrong bit must not be taken for a good one
+      std::vector<size_t> marks;
+      uint32_t w = 0;
+      for (size_t k = 0; k < nbits; ++k)
+	{
+	  w = ((w << 1) | bits[k]) & 0xFFFFu;
+	  if (k >= 15 && (w == 0xF57E || w == 0xF56F || w == 0xF56A))
+	    marks.push_back(k - 15);
+	  else if (k >= 15 && w == 0x4489 && k + 16 < nbits)
+	    marks.push_back(k + 1);
+	}
+      if (marks.empty())
+	return LLVMFuzzerMutate(data, size, max_size);
+      const size_t m = marks[next() % marks.size()];
+      size_t cell;
+      switch (next() % 4)
+	{
+	case 0: cell = m + 15; break;                       // data bit 0 of the mark
+	case 1: cell = m + 13; break;                       // data bit 1
+	case 2: cell = m + 1 + 2 * (next() % 8); break;     // any data bit of the mark
+	default: cell = m + 16 + 1 + 2 * (next() % (8 * 6)); break;  // a data bit of the six bytes behind it
+	}
+      if (cell < nbits)
+	bits[cell] ^= 1;
+    }
+  else if (choice == 0)
     {
       if (next() & 1)
 	bits.insert(bits.begin() + pos, n, static_cast<uint8_t>(next() & 1));   // slip: cells inserted
